@@ -17,16 +17,16 @@ NOTE = ("Trusted: TLC, the CommunityModules JSON reader, the read-only snapshot 
 
 CLAIMED = {
     "C01": ("Allowed_C01", "5 C01", ""),
-    "C03": ("Allowed_C03", "5 C03", "On the concurrent cache the insert-fits clause is judged at the sync() that follows the insert."),
+    "C03": ("Allowed_C03", "5 C03", "On the concurrent cache the insert-fits clause is judged at the sync() that follows the insert. Under interleavings (spec/SyncConc.tla, every schedule TLC emits replayed on real threads): the fit probe, the refill and Allowed_C03c (an insert that is unambiguously the last write of its key is in the final iteration), also on a harness built with the library's debug assertions off."),
     "C04": ("Allowed_C04", "5 C04", "The overshoot clause (between maintenance runs) is covered by the burst driver of C09."),
-    "C05": ("Allowed_C05", "5 C05/C06", ""),
-    "C06": ("Allowed_C06", "5 C05/C06", ""),
+    "C05": ("Allowed_C05", "5 C05/C06", "Under interleavings: Allowed_C05c (spec/SyncConc.tla) model-checked on every interleaving of the race programs with expiry and evaluated on every scheduled run of them on real threads."),
+    "C06": ("Allowed_C06", "5 C05/C06", "Under interleavings: Allowed_C06c (spec/SyncConc.tla) model-checked on every interleaving of the race programs with expiry and evaluated on every scheduled run of them on real threads."),
     "C07": ("Allowed_C07", "5 C07", "The monitor remembers contains_key answers, so its exhaustive universes have two keys."),
     "C10": ("Allowed_C10", "5 C10", ""),
     "C11": ("Allowed_C11", "5 C11", "Live objects are counted by the harness's instrumented key/value types."),
     "C12": ("Allowed_C12", "5 C12", ""),
     "C13": ("Allowed_C13", "5 C13", "The decision is predicted from the implementation's own popularity estimates read through the hook."),
-    "C16": ("Allowed_C16", "5 C16", ""),
+    "C16": ("Allowed_C16", "5 C16", "Beside concurrent writers: free-running iterator and writer threads judged by IterOk (spec/TraceConc.tla); the final iteration of scheduled runs judged by Allowed_C03c."),
     "C08": ("Allowed_C08 plus the crash flags of UnsyncCache.tla / SyncCache.tla, Deque.tla's well-formedness and refinement invariants and Sketch.tla's overflow flag",
             "5 C08", "TLC evaluates the list invariants on structural walks of the real heap taken after every call; every execution runs with overflow checks and debug assertions on, each behaviour isolated (a panic or a signal becomes a Panic / Crash event that no monitor accepts). Machine-level memory safety beyond that is the run-time environment's verdict, not TLA+'s (DESIGN.md 2.3)."),
     "C14": ("Allowed_Sk14 in spec/Sketch.tla for the estimator itself, Allowed_C14 for the cache-level clause",
@@ -62,7 +62,8 @@ EXTRA = {
     "C02": dict(
         text="spec/SyncConc.tla interleaves the operators of SyncCache.tla at the switch points the code marks with "
              "verif::point (map access, housekeeping decision, send, mutex acquisition, every queued record, the two "
-             "scans, publication). TLC explores every interleaving of a catalogue of two- and three-thread race "
+             "scans, publication; handle_upsert of an entry not yet admitted is three steps, m.write / m.w2 / m.w3, one per "
+             "access to the map). TLC explores every interleaving of a catalogue of two- and three-thread race "
              "programs with the C02 monitor (Allowed_C02: a get returns nothing or a value not superseded by a write "
              "that returned before the get began; per-reader per-writer monotonicity; the final contents) evaluated on "
              "every invoke / return. The same schedules are then forced on real threads by a controller that lets "
@@ -81,7 +82,10 @@ EXTRA = {
              "that fill the write channel. On the code: every schedule is executed with a step budget and a "
              "release-then-watchdog rule (a run that does not finish is a Timeout event, which the monitor never "
              "accepts), and un-synced bursts of thousands of operations by 1 and 8 threads run in both housekeeping "
-             "regimes; every operation must return and maintenance must still drain the queues afterwards.",
+             "regimes; every operation must return and maintenance must still drain the queues afterwards. One "
+             "maintenance run beside writers that keep the queue above its flush point lets them complete a bounded "
+             "number of inserts (MaintRun clause); histories with a weigher that calls back into its own cache must "
+             "return as well.",
         note="Wall-clock limits (120 s for bursts that normally take milliseconds) are applied only to free-running "
              "bursts; scheduled runs use step counts. Liveness is checked on the unconstrained finite graph of each "
              "program. Trusted: TLC, the controller.",
